@@ -1449,6 +1449,9 @@ func (state *pexState) add(p pex.Peer) {
 		if len(state.pendingDel) == 0 {
 			state.pendingDel = nil
 		}
+		// the peer was never told about the drop, so it still
+		// knows this address
+		state.sent = append(state.sent, p)
 		return
 	}
 
